@@ -115,6 +115,10 @@ Drop(p) ==
 CbB(o, p, k, v, i) ==
   \* C02: callbacks of one observer never overlap
   /\ On("C02") => (safe => inside[o] = 0)
+  \* C07: a failure reaches the subscriber AFTER all values emitted before it: when the Error callback begins no value callback of
+  \* this observer is still running (serialisation promised), and nothing follows it
+  /\ On("C07") => ((k = "E" /\ safe) => inside[o] = 0)
+  /\ On("C07") => ~termB[o]
   \* C01: values, then at most one terminal, then silence
   /\ On("C01") => ~termB[o]
   \* the callback belongs to a call that is in flight and carries this notification, delivered once
